@@ -321,7 +321,9 @@ def check_numbering(chk) -> None:
     # nucleotide lists agree
     n1, n2 = astq.first_assign(fi.node, "nucleotides"), astq.first_assign(ss.node, "nucleotides")
     want = flat("list(filter(lambda r: r.is_nucleotide, self.structure3d.residues))")
-    chk.expect(n1 is not None and n2 is not None and flat(n1) == flat(n2) == want, "nucleotides-agree", fi.where, "BPSEQ and strand sequences enumerate the same nucleotides: residues with is_nucleotide, in file order", "the nucleotide lists of __generate_bpseq and strands_sequences differ (or are not the is_nucleotide residues in file order): sequence and matching drift apart", K(fi, "nucleotides"))
+    ok1 = n1 is not None and flat(n1) == want
+    # the finding is reported at the function whose list is not the pinned one: the form reading abstains where that function was rewritten
+    chk.expect(ok1 and n2 is not None and flat(n2) == want, "nucleotides-agree", fi.where if not ok1 else ss.where, "BPSEQ and strand sequences enumerate the same nucleotides: residues with is_nucleotide, in file order", "the nucleotide lists of __generate_bpseq and strands_sequences differ (or are not the is_nucleotide residues in file order): sequence and matching drift apart", K(fi, "nucleotides"))
     # gap rules agree
     g1, g2 = gap_rule(fi), gap_rule(ss)
     if g1 is None or g2 is None:
